@@ -41,7 +41,7 @@ RES=""
 for C in $CHECKS; do
   SPECKIT_VERIF_REPO="$WT" ./check "$C" --tier quick > "$WT/check_$C.log" 2>&1; RC=$?
   echo "== check $C exit=$RC" >> "$LOG"
-  grep -E "^(VIOLATION|KNOWN-FINDING|INCONCLUSIVE|  \[|C[0-9]+ tier)" "$WT/check_$C.log" | cut -c1-400 >> "$LOG"
+  grep -E "^(VIOLATION|KNOWN-FINDING|INCONCLUSIVE|  \[|C[0-9]+ tier)" "$WT/check_$C.log" | cut -c1-400 | sed 's/^/CHK /' >> "$LOG"
   RES="$RES $C=$RC"
 done
 echo "$NAME: demo without=$D0 with=$D1 | tests: $T | checks:$RES"
